@@ -64,3 +64,23 @@ package timeout
 //@   let tc := asref(result, *timeout).config
 //@   ensures [C07.build.own_config+C16.timeout.build_own_listener] result != nil && typeis(result, *timeout) && tc != nil && tc != c && fresh(tc) && tc.timeLimit == c.timeLimit && tc.onTimeoutExceeded == c.onTimeoutExceeded
 //@   modifies nothing
+
+// One executor per execution: fresh, pointing back at itself (the template dispatches PreExecute / PostExecute through that
+// pointer) and at this policy.
+//@ func (*timeout).ToExecutor
+//@   builder
+//@   requires t != nil
+//@   let x := asref(result, *executor)
+//@   ensures [C01.toexecutor.fresh_self_referential+C07.toexecutor] typeis(result, *executor) && fresh(x) && x.timeout == t && x.BaseExecutor != nil && fresh(x.BaseExecutor) && typeis(x.Executor, *executor) && asref(x.Executor, *executor) == x
+//@   modifies nothing
+
+//@ func Builder
+//@   builder
+//@   let c := asref(result, *config)
+//@   ensures [C07.builder.time_limit] typeis(result, *config) && fresh(c) && c.timeLimit == timeLimit && c.onTimeoutExceeded == nil
+//@   modifies nothing
+//@ func (*config).OnTimeoutExceeded
+//@   builder
+//@   requires c != nil
+//@   ensures [C16.timeout.listener_registered+C07.builder.listener] c.onTimeoutExceeded == listener && c.timeLimit == old(c.timeLimit) && result == asiface(c)
+//@   modifies c.onTimeoutExceeded
